@@ -39,6 +39,7 @@ structure Tables where
   exeVarTypeOptional : Bool
   opFallbackAnyName : Bool
   fieldPosAfterLookahead : Bool
+  leafErrNulls : Bool
 
 /-- snapshot of `Gen/Tables.lean` at the pinned commit -/
 def pinnedValueTbl : ValueText.Tbl :=
@@ -165,6 +166,6 @@ def pinnedTables : Tables :=
     outTime := Pinned.coerceOutTime, inTime := Pinned.coerceInTime,
     introTable := pinnedIntroTable,
     locateTable := [(.enum, "ENUM"), (.iface, "INTERFACE"), (.input, "INPUT_OBJECT"), (.object, "OBJECT"), (.scalar, "SCALAR"), (.union, "UNION")],
-    metaLiteral := "Query", sdlEmptyTokenSpins := true, exeVarTypeOptional := true, opFallbackAnyName := true, fieldPosAfterLookahead := true }
+    metaLiteral := "Query", sdlEmptyTokenSpins := true, exeVarTypeOptional := true, opFallbackAnyName := true, fieldPosAfterLookahead := true, leafErrNulls := false }
 
 end Ggql.Driver
